@@ -508,3 +508,14 @@ def fresh_python(code, args=(), env=None, timeout=600, cwd=None, input=None):
 
 def rm_rf(p):
     shutil.rmtree(p, ignore_errors=True)
+
+
+def replay_family(prop, key, fn):
+    """re-run a small deterministic family of real runs and report whether the failure recorded under `key` happens again"""
+    run = Run(prop, 'quick')
+    fn(run)
+    again = [f for f in run.failures if f['key'] == key]
+    for f in (again or run.failures)[:5]:
+        print('FAILS:', f['what'][:600])
+    print('property FAILS on this input' if again else ('the recorded failure does not recur' + (' (other failures shown above)' if run.failures else '')))
+    return 1 if again else 0
